@@ -158,6 +158,7 @@ def run(ctx):
                                             for u in uses)
             rep.check(okp, 'R1', 'error-propagated:%s' % (callee_name(t) or '').rsplit('::', 1)[-1], where(fo, bi),
                       'Result goes through `?`', 'a Result in the parser is unwrapped or dropped')
+    transition_lemmas(ctx, fo)
     rep.note('the denotation of every grammar string (sign/term/constant orders) is not decided statically; a cross-reference: '
              'the \'/\' and \'*\' operator arms have identical effects (harmless: the grammar has no \'*\')')
 
@@ -212,3 +213,221 @@ def _row_from_guarded_enumerate(b, cfg, tr, ro, use_bb):
         return False, 'the length of the enumerated Vec is not bounded above by a dominating guard (guards used: %s)' % used
     ok = hi - 1 < 3
     return ok, 'enumerate counter < len(_%d) in [%d,%d] (guards %s) => row <= %d' % (vec_l, lo, hi, [(u[1], u[2], u[3]) for u in used], hi - 1)
+
+
+# ---------------------------------------------------------------------------------------------------------------
+# R3 — per-character transition lemmas (necessary conditions of "parses to the affine map the expression denotes").
+# The inner character loop's body is loop-free: it is executed symbolically once, from the block that receives the
+# character, with a fully symbolic parser state (pending sign, constant, pending operator, matrix), and stops at the loop
+# head.  The lemmas below follow from the notation itself (not from this implementation): blanks are insignificant, '-'
+# makes the pending sign negative, a variable stores the pending sign in its column and consumes it, '/' then a digit
+# divides, the row's constant ends up in column 2.  They say nothing about strings outside the grammar.
+
+def transition_lemmas(ctx, fo):
+    from ..sym import NUM, SYM, STRUCT, SymEx, sfield
+    from ..terms import Norm, NotNumeric
+    from ..loops import for_loops
+    rep, f = ctx.rep, ctx.facts
+    cfg = CFG(fo)
+    tr = Tracer(fo)
+    loops = for_loops(fo, cfg, tr)
+    inner = [d for d in loops if 'Chars' in (d['next_term']['args'][0].get('ty', '') + d['next_term']['func'].get('fn', '') +
+                                                 str(d['next_term']['func'].get('self_ty', '')))]
+    if not rep.check(len(inner) == 1, 'R3', 'anchor:character-loop', where(fo), 'one loop over chars()',
+                     'expected exactly one loop over the characters of a component, found %d' % len(inner), 'undecidable-shape'):
+        return
+    d = inner[0]
+    hdr = d['header']
+    item = d['item_local']
+    # Some-edge of the switch after next()
+    nb = d['next_term']['target']
+    sw = fo.blocks[nb]['term']
+    some_t = None
+    if sw['t'] == 'switch':
+        for v, tgt in sw['arms']:
+            if v == '1':
+                some_t = tgt
+        if some_t is None:
+            some_t = sw['otherwise']
+    if not rep.check(some_t is not None, 'R3', 'character-loop-shape', where(fo, nb), 'switch on next()', 'loop shape not recognised',
+                     'undecidable-shape'):
+        return
+    # roles of the state locals
+    mat_l = None
+    writes = {}   # col -> value local
+    for bi, t in fo.calls():
+        n = callee_name(t) or ''
+        if '(usize, usize)' in n and n.endswith('index_mut'):
+            from ..anchors import container_root
+            mat_l = container_root(fo, tr, t['args'][0])
+            idx = tr.origin(t['args'][1])
+            col = const_value(idx['rv']['ops'][1]) if idx['o'] == 'rvalue' else None
+            # the statement storing through the returned reference
+            rl = t['dest']['l']
+            for (wbi, wsi, pl, rv) in tr.defs.dwrites.get(rl, []):
+                if rv.get('r') == 'use' and rv['a'].get('l') is not None:
+                    writes[col] = (tr.chain(rv['a'])[-1][0], bi in d['loop']['body'])
+    sign_l = writes.get(0, (None,))[0]
+    const_l = writes.get(2, (None,))[0]
+    op_l = None
+    for i, l in enumerate(fo.locals):
+        if l['ty'] == 'std::option::Option<char>' and l.get('name') and any(x[0] in d['loop']['body'] for x in tr.defs.of(i)):
+            op_l = i
+    if not rep.check(None not in (mat_l, sign_l, const_l, op_l) and writes.get(1, (None,))[0] == sign_l, 'R3', 'parser-state-roles', where(fo),
+                     'matrix _%s, pending sign _%s, constant _%s, pending operator _%s' % (mat_l, sign_l, const_l, op_l),
+                     'cannot identify the parser state (matrix / pending sign / constant / pending operator) by role: %s'
+                     % (dict(mat=mat_l, sign=sign_l, const=const_l, op=op_l),), 'undecidable-shape'):
+        return
+    rep.check(writes.get(2, (None, True))[1] is False, 'R3', 'constant-stored-after-the-characters', where(fo),
+              'transform[(row, 2)] := constant after the character loop', 'the constant is stored inside the character loop')
+    # the outer enumerate index local
+    outer = [x for x in loops if x is not d and d['header'] in x['loop']['body']]
+    n = Norm()
+    results = {}
+    for row in (0, 1):
+        sx = SymEx(f)
+        M = SymEx.m3([[SYM('m%d%d' % (i, j)) for j in range(3)] for i in range(3)])
+        frame = {mat_l: M, sign_l: SYM('sign'), const_l: SYM('constant'), op_l: SYM('operator'),
+                 item: STRUCT('std::option::Option', ('Some', 1), [('0', SYM('c'))])}
+        # the row index: every local holding the enumerate counter
+        if outer:
+            oi = outer[0]['item_local']
+            frame[oi] = STRUCT('std::option::Option', ('Some', 1), [('0', STRUCT('(tuple)', None, [('0', NUM(row)), ('1', SYM('op'))]))])
+            # locals copied from the outer item before the inner loop
+            for i2 in range(len(fo.locals)):
+                if i2 in frame:
+                    continue
+                ds = tr.defs.single(i2)
+                if ds and ds[2] == 'assign' and ds[3]['r'] == 'use' and ds[0] in outer[0]['loop']['body'] and ds[0] not in d['loop']['body']:
+                    a = ds[3]['a']
+                    if a.get('l') == oi:
+                        fp = field_path(a['p'])
+                        if fp[-1:] == ['0'] and len(fp) >= 2:
+                            frame[i2] = NUM(row)
+        outs = sx.run_region(fo, some_t, frame, {hdr})
+        results[row] = (sx, outs)
+    ok_all = True
+
+    def state_of(sx, o):
+        fr = o.st.frames[sx.region_fid]
+        g = lambda l: sx.deep(o.st, fr.get(l))
+        return {'sign': g(sign_l), 'constant': g(const_l), 'operator': g(op_l), 'matrix': g(mat_l)}
+
+    def char_class(o):
+        """set of character codes this path is taken for (from switch facts on c), or ('digit',) / ('other',)."""
+        codes = None
+        conds = []
+        for c in o.pc:
+            if c[0] == 'switch' and c[1] == SYM('c'):
+                codes = c[2]
+            elif c[0] == 'cond':
+                conds.append(c)
+        return codes, conds
+
+    sx0, outs0 = results[0]
+    if not rep.check(bool(outs0) and not sx0.aborted, 'R3', 'character-step-loop-free', where(fo, some_t), '%d paths per character step' % len(outs0),
+                     'one step of the character loop is not loop-free', 'undecidable-shape'):
+        return
+    rep.floor('R3', 'paths through one character step', len(outs0), 8, where(fo, some_t))
+
+    def same(a, b):
+        try:
+            return n.rf(a).equals(n.rf(b))
+        except (NotNumeric, TypeError):
+            return a == b
+
+    def mat_changes(row, st):
+        ch = {}
+        for i in range(3):
+            for j in range(3):
+                v = sfield(st['matrix'], '%d%d' % (i, j))
+                if v != SYM('m%d%d' % (i, j)):
+                    ch[(i, j)] = v
+        return ch
+    lemmas = {32: 'blank', 43: 'plus', 45: 'minus', 120: 'x', 121: 'y', 47: 'slash'}
+    seen = set()
+    for row in (0, 1):
+        sx, outs = results[row]
+        for o in outs:
+            codes, conds = char_class(o)
+            if codes is None or o.ret[0] != 'stopped' if isinstance(o.ret, tuple) else True:
+                continue
+            nm = lemmas.get(codes)
+            if nm is None:
+                continue
+            st = state_of(sx, o)
+            ch = mat_changes(row, st)
+            sign_same, const_same, op_same = st['sign'] == SYM('sign'), st['constant'] == SYM('constant'), st['operator'] == SYM('operator')
+            if nm == 'blank':
+                ok = sign_same and const_same and op_same and not ch
+                why = 'a blank changes the parser state (sign %s, constant %s, operator %s, matrix %s): "x - 1/2" and "x -1/2" parse ' \
+                      'differently although spaces are optional' % (sign_same, const_same, op_same, not ch)
+            elif nm == 'plus':
+                ok = (sign_same or same(st['sign'], NUM(1))) and const_same and op_same and not ch
+                why = '\'+\' changes more than the pending sign'
+            elif nm == 'minus':
+                ok = same(st['sign'], NUM(-1)) and const_same and op_same and not ch
+                why = '\'-\' does not simply make the pending sign negative (sign -> %r)' % (st['sign'],)
+            elif nm in ('x', 'y'):
+                col = 0 if nm == 'x' else 1
+                ok = set(ch) == {(row, col)} and ch[(row, col)] == SYM('sign') and same(st['sign'], NUM(1)) and const_same and op_same
+                why = '\'%s\' does not store the pending sign in entry (%d,%d) and consume it: matrix changes %s, sign -> %r' % (nm, row, col, ch, st['sign'])
+            else:   # slash
+                ok = sign_same and const_same and not ch and st['operator'][0] == 'struct' and st['operator'][2] and st['operator'][2][0] == 'Some'
+                why = '\'/\' does not simply record a pending division'
+            seen.add(nm)
+            rep.check(ok, 'R3', 'char-step:%s:row%d' % (nm, row), where(fo, some_t), 'lemma for \'%s\' holds' % nm, why)
+            ok_all &= ok
+    for nm in lemmas.values():
+        rep.check(nm in seen, 'R3', 'char-step-present:%s' % nm, where(fo, some_t), 'handled', 'no path handles the character class %s' % nm,
+                  'undecidable-shape')
+    # digits: with no pending operator constant := sign*V ; with a pending '/' constant := [sign*]constant/V ; sign consumed
+    sx, outs = results[0]
+    dig = [o for o in outs if isinstance(o.ret, tuple) and o.ret[0] == 'stopped' and char_class(o)[0] is None and
+           any('as:f64' in repr(state_of(sx, o)['constant']) or 'parse' in repr(state_of(sx, o)['constant']) for _ in (0,))]
+    n_d = 0
+    for o in dig:
+        st = state_of(sx, o)
+        cv = st['constant']
+        vs = [a for a in _apps(cv) if 'parse' in repr(a) or 'as:f64' in a[1]]
+        if not vs:
+            continue
+        try:
+            got = n.rf(cv)
+        except (NotNumeric, TypeError):
+            continue
+        V = None
+        for a in got.atoms():
+            if 'parse' in a or 'Try' in a or 'branch' in a:
+                V = n.atom(a)
+        if V is None:
+            continue
+        n_d += 1
+        s_, c_ = n.atom('sign'), n.atom('constant')
+        forms_none = [s_ * V]
+        forms_div = [s_ * c_ / V, c_ / V]
+        opd = [c for c in o.pc if c[0] in ('switch', 'switch-not') and 'operator' in repr(c[1])]
+        is_none = any(c[0] == 'switch' and c[2] == 0 for c in opd)
+        if is_none:
+            ok = any(got.equals(x) for x in forms_none) and same(st['sign'], NUM(1))
+            rep.check(ok, 'R3', 'digit-step:first-digit', where(fo, some_t), 'constant := sign * digit; sign consumed',
+                      'a digit with no pending operator does not set constant := sign*digit (got %s)' % got.canon()[:120])
+        else:
+            slash = any(c[0] == 'cond' and c[2] and '47' in repr(c[1]) for c in o.pc)
+            if slash:
+                ok = any(got.equals(x) for x in forms_div)
+                rep.check(ok, 'R3', 'digit-step:after-slash', where(fo, some_t), 'constant := constant / digit',
+                          'a digit after \'/\' does not divide the constant by the digit (got %s)' % got.canon()[:120])
+    rep.floor('R3', 'digit transitions checked', n_d, 2, where(fo, some_t))
+    rep.sample('character step: blank=identity, \'-\': sign:=-1, x/y: m[row,col]:=sign & sign:=1, \'/\': pending division, digit: sign*d or constant/d')
+
+
+def _apps(v):
+    out = []
+    if isinstance(v, tuple):
+        if v and v[0] == 'app':
+            out.append(v)
+        for x in v:
+            if isinstance(x, tuple):
+                out.extend(_apps(x))
+    return out
